@@ -89,6 +89,11 @@ def decorations(spec):
             s["funcs"][i]["ren"] = {o: o + "_orig"}
             s["deco"] = "rename-output"
             yield s
+        if len(f["outs"]) == 1:
+            s = copy.deepcopy(spec)
+            s["funcs"][i]["none"] = True  # the function returns None (a legitimate value like any other)
+            s["deco"] = "returns-none"
+            yield s
     # a root parameter shared by two functions with equal defaults
     for p in ROOTS:
         users = [i for i, f in enumerate(spec["funcs"]) if p in f["params"]]
@@ -109,7 +114,8 @@ def build_funcs(spec, *, hook=None, cache=None, extra: dict | None = None) -> li
         ren = f.get("ren", {})
         orig_params = [ren.get(p, p) for p in f["params"]]
         sigdef = {ren.get(p, p): v for p, v in f.get("sigdef", {}).items()}
-        fn = terms.make_function(f.get("tag", f["name"]), orig_params, len(f["outs"]), sig_defaults=sigdef, hook=hook)
+        fn = terms.make_function(f.get("tag", f["name"]), orig_params, len(f["outs"]), sig_defaults=sigdef, hook=hook,
+                                 returns_none=bool(f.get("none")))
         orig_outs = [ren.get(o, o) for o in f["outs"]]
         kw = {}
         if ren:
@@ -191,7 +197,7 @@ def ref_eval(spec, out, kw) -> RefResult:
             args.append(v)
         a = ",".join(terms.T(v) for v in args)
         tag = f.get("tag", f["name"])
-        r = f"{tag}({a})" if len(f["outs"]) == 1 else tuple(f"{tag}.{k}({a})" for k in range(len(f["outs"])))
+        r = None if f.get("none") else f"{tag}({a})" if len(f["outs"]) == 1 else tuple(f"{tag}.{k}({a})" for k in range(len(f["outs"])))
         memo[i] = r
         ran.append(i)
         for j, o in enumerate(f["outs"]):
